@@ -83,6 +83,7 @@ pub fn dispatch(which: &str, v: &Value, case: &Value) -> Value {
         "c04_prec" => c04_prec(v),
         "c01_bin" => c01_bin(v),
         "c01_flags" => c01_flags(v),
+        "c01_host_tokens" => c01_host_tokens(v),
         "c01_flags_host" => c01_flags_host(v),
         "c01_dom" => c01_dom(v),
         "c01_scheme" => c01_scheme(v),
@@ -375,6 +376,19 @@ fn c01_flags_host(v: &Value) -> Value {
     if https && !http { want.push(fast_hash("https")); }
     let ok = g.len() == 1 && g[0] == want;
     json!({"reproduced": !ok, "mask": m, "tokens": g.first().map(|x| x.len()), "want": want.len()})
+}
+fn c01_host_tokens(v: &Value) -> Value {
+    let fh = sub(v, "fb", "fl");
+    let h = sub(v, "hb", "hl");
+    let url = format!("https://{}{}", h, if b(&v["has_t"]) { ((u(&v["t"]) as u8) as char).to_string() } else { String::new() });
+    let mask = NetworkFilterMask::DEFAULT_OPTIONS | NetworkFilterMask::IS_HOSTNAME_ANCHOR;
+    let nf = mk_filter(mask.bits(), FilterPart::Empty, Some(fh.clone()), None);
+    let req = mk_request(&url, &h, RequestType::Script, false, true, false, None);
+    let m = matches(&nf, &req);
+    let rt: Vec<u64> = req.get_tokens().clone();
+    let missing: Vec<u64> = nf.get_tokens().iter().flatten().filter(|t| !rt.contains(t)).cloned().collect();
+    let engine = blocker_of(vec![nf], false).check(&req, &ResourceStorage::default()).matched;
+    json!({"reproduced": m && !missing.is_empty(), "filter_host": fh, "url": url, "matcher_accepts": m, "tokens_missing": missing.len(), "engine_matched": engine})
 }
 fn c01_dom(v: &Value) -> Value {
     let m = (u(&v["m"]) as u32) & !(u(&v["mask_clear"]) as u32);
